@@ -9,7 +9,7 @@ RULE = ('every n in 1..N with position-revealing symmetric integer matrices in f
         'contiguous / transposed / strided-window inputs through the real get_triu/fill_triu and the '
         'symmetric allreduce/broadcast paths under simdist; malformed (non-square, non-2-D) shapes through '
         'the three communicator entry points; non-trivial = n ≥ 2; distinct = (n, dtype, layout) or shape'
-        '; bit-exact round trips of extreme entries (max/min normal, subnormal, ±0, ±inf) in four dtypes; n = 1023…2049 (3000 thorough); several symmetric tensors in flight through the bucketed path at capacities around one packed tensor; sub-groups whose group-local ranks differ from the global ones')
+        '; bit-exact round trips of extreme entries (max/min normal, subnormal, ±0, ±inf) in four dtypes; n = 1023…2049 (3000 thorough); several symmetric tensors in flight through the bucketed path at capacities around one packed tensor; sub-groups whose group-local ranks differ from the global ones; ranks handing in differently laid-out (row-major, column-major, strided) tensors to one symmetric collective')
 TRUSTED = [
     'Lean 4.33 kernel; axioms audited ⊆ {propext, Classical.choice, Quot.sound}',
     'hand-written model KV.Comm.getTriu/fillTriu/checkShape tied to kfac/distributed.py by this correspondence',
@@ -94,6 +94,7 @@ def run(ctx):
     large_stream(ctx)
     comm_stream(ctx)
     pipeline_stream(ctx)
+    layout_stream(ctx)
     subgroup_stream(ctx)
     reject_stream(ctx)
 
@@ -306,6 +307,63 @@ def pipeline_stream(ctx):
         ctx.evaluations += 1
         ctx.case(('pipeline', world, n, str(dtype), cap, count, avg), nontrivial=True)
         ctx.count('pipeline-alone-in-bucket' if packed <= cap < 2 * packed else 'pipeline-other')
+
+
+def layout_stream(ctx):
+    """ranks hand in the same symmetric matrix in different memory layouts (row-major buffer on the receivers, column-major
+    on the source — what torch.linalg.inv / eigh return —, a transposed view, a strided window): what travels is the
+    triangle of the MATRIX, so the result is the dense result whatever the strides on any rank"""
+    from kfac.distributed import TorchDistributedCommunicator
+    rng = ctx.rng
+    kinds = ['contig', 'colmajor', 'window']
+    for trial in range(ctx.budget(40, 300)):
+        world = rng.choice([2, 3, 3, 4])
+        n = rng.choice([3, 4, 5, 8])
+        dtype = rng.choice([torch.float32, torch.float64])
+        entry = rng.choice(['broadcast', 'allreduce', 'allreduce_bucketed'])
+        lay = [rng.choice(kinds) for _ in range(world)]
+        if len(set(lay)) == 1:
+            lay[rng.randrange(world)] = 'colmajor' if lay[0] != 'colmajor' else 'contig'
+        src = rng.randrange(world)
+        case = {'stream': 'layout', 'world': world, 'n': n, 'dtype': str(dtype), 'entry': entry, 'layouts': lay, 'src': src}
+
+        def put(A, kind):
+            if kind == 'contig':
+                return A.contiguous()
+            if kind == 'colmajor':
+                return A.t().contiguous().t()
+            big = torch.zeros(A.shape[0] + 2, 2 * A.shape[0] + 1, dtype=A.dtype)
+            big[1:A.shape[0] + 1, 1:2 * A.shape[0] + 1:2] = A
+            return big[1:A.shape[0] + 1, 1:2 * A.shape[0] + 1:2]
+
+        def prog(rank, n=n, dtype=dtype, entry=entry, lay=lay, src=src, put=put):
+            tdc = TorchDistributedCommunicator(bucket_cap_mb=25.0)
+            A = sym_matrix(n, dtype, 97) * (rank + 1)
+            if entry == 'broadcast':
+                t = put(A if rank == src else torch.zeros_like(A), lay[rank])
+                out = tdc.broadcast(t, src=src, symmetric=True)
+            elif entry == 'allreduce':
+                out = tdc.allreduce(put(A, lay[rank]), symmetric=True)
+            else:
+                out = tdc.allreduce_bucketed(put(A, lay[rank]), symmetric=True)
+                tdc.flush_allreduce_buckets()
+            return out.wait() if not isinstance(out, torch.Tensor) else out
+
+        wd, res = simdist.run_world(world, prog, seed=ctx.seed * 6007 + trial, stickiness=rng.choice([0.0, 0.5, 0.9]))
+        if wd.exceptions or wd.stalled or wd.errors:
+            ctx.fail(f'run failed: exc={wd.exceptions} stalled={wd.stalled} errors={wd.errors[:2]}', case, 'layout-run')
+            continue
+        mult = (src + 1) if entry == 'broadcast' else sum(r + 1 for r in range(world))
+        want = sym_matrix(n, torch.float64, 97) * mult
+        for rank in range(world):
+            got = res[rank]
+            if tuple(got.shape) != (n, n) or got.dtype != dtype or not torch.equal(got.to(torch.float64), want):
+                ctx.fail(f'{entry} of a symmetric matrix: rank {rank} ({lay[rank]} input) got a result different from the dense one',
+                         dict(case, got=got.tolist(), want=want.tolist()), 'layout-value')
+                break
+        ctx.evaluations += 1
+        ctx.case(('layout', world, n, str(dtype), entry, tuple(lay), src), nontrivial=True, sample=case if trial < 3 else None)
+        ctx.count('layout-' + entry)
 
 
 def comm_stream(ctx):
